@@ -441,6 +441,10 @@ def judge(part, w):
                      '%s: cancel requested, handed on as %s (exit %s), '
                      'process ended with %s' % (uid, tgt, ec,
                                                 p0.code if p0 else None))
+        if o['unsched'] > 1:
+            viol('C01', 'released-twice', 'Popen', trig,
+                 '%s: %d unschedule publications: the second frees resources '
+                 'the scheduler may have granted again' % (uid, o['unsched']))
         if o['unsched'] != 1:
             for prop in ('C07', 'C03', 'C08') if named else ('C07', 'C03'):
                 viol(prop, 'unschedule-count', 'Popen',
